@@ -176,7 +176,8 @@ func (d c08) Execute(c *core.Case) *core.Result {
 	}
 	for i := range c.Ops {
 		op := c.Ops[i]
-		if op.Actor != ca || op.Kind == "restart" {
+		cacheOp := op.Kind == "staleCache" || op.Kind == "cachePopulate" || op.Kind == "cacheDelete" || op.Kind == "verify"
+		if op.Actor != ca || !cacheOp {
 			out := w.Exec(&op)
 			if out.Panic != nil {
 				res.Violate("C08", "panic", fmt.Sprintf("op #%d %s panicked: %v", op.ID, op.Kind, out.Panic), op.ID)
@@ -295,6 +296,19 @@ func (d c08) Execute(c *core.Case) *core.Result {
 				// attribution: does the policy the twin used differ from what a stale cache knows?
 				if pos := l.PositionsForRef(vop.Ref); len(pos) > 0 && cacheLogLen >= 0 {
 					last := pos[len(pos)-1]
+					// ... or the stale index hides a policy state that does not verify (the cache-less run fails on it)
+					byz := map[int]bool{}
+					for _, o := range c.Ops {
+						if o.Kind == "byzPolicy" {
+							byz[o.ID] = true
+						}
+					}
+					for j := cacheLogLen; j < len(w.Entries); j++ {
+						if w.Entries[j].Ref == policyRef && byz[w.Entries[j].OpID] {
+							feat = append(feat, "stale-policy-answer-explains")
+							break
+						}
+					}
 					if vop.Mode == "mergeable" {
 						last = len(w.Entries) // the prediction uses the latest policy and approvals, wherever they are
 					}
@@ -309,6 +323,27 @@ func (d c08) Execute(c *core.Case) *core.Result {
 							feat = append(feat, "attestation-entry-after-cache-point")
 							break
 						}
+					}
+					// can a stale answer explain the difference at all? Some entry of the reference must be
+					// judged differently under the policy (approvals) the cache knew at its cache point than
+					// under the ones really in force before it
+					for _, p := range pos {
+						if w.Entries[p].Kind != "reference" {
+							continue
+						}
+						truth := l.Decide(p).Authorized
+						if tp := l.PolicyBefore(p); tp != nil && cacheLogLen <= p {
+							if sp := l.PolicyAsOf(cacheLogLen); sp != tp && l.DecideUnder(p, sp, l.AttBefore(p)).Authorized != truth {
+								feat = append(feat, "stale-policy-answer-explains")
+							}
+							if sa := l.AttAsOf(cacheLogLen); l.DecideUnder(p, tp, sa).Authorized != truth {
+								feat = append(feat, "stale-approvals-answer-explains")
+							}
+						}
+					}
+					if vop.Mode == "mergeable" {
+						// the prediction reads the latest policy and approvals: any later entry can change it
+						feat = append(feat, "stale-policy-answer-explains", "stale-approvals-answer-explains")
 					}
 				}
 				// attribution: the cache remembers the entry the actor's last successful full
